@@ -19,7 +19,6 @@ impl<T> ExprBoxed<T> {
 
     pub fn not(value: Self) -> Self {
         match value {
-            ExprBoxed::Term(term) => ExprBoxed::Term(term),
             ExprBoxed::Not(inner) => *inner,
             _ => ExprBoxed::Not(Box::new(value)),
         }
